@@ -203,6 +203,8 @@ def run(chk: Check) -> None:
     import readspec
     readspec.validate_all(chk, 800 * n)
     readspec.ports_inline(chk, 1500 * n)
+    import c01
+    c01.validate_block_start_spec(chk, 800 * n)       # includes the port escape_word (model) vs markdown_escape_word: code spans and fences at line starts
     docs = [gen_code_doc(rng) for _ in range(200 * n)] + [gen_indented_code_doc(rng) for _ in range(150 * n)] + [gen_span_doc(rng) for _ in range(250 * n)]
     gen_docs.AVOID = set(c02.AVOID_MAIN)
     docs += [gen_docs.gen_doc(rng) for _ in range(150 * n)]
